@@ -56,11 +56,14 @@ def slots_for(principal):
 
 class DavSession:
     def __init__(self, frontend="wsgi", prefix="/", backend="tree", index_threshold=None,
-                 audit_git=True, max_sync_tokens=4, principal="/user/", strict=True, paranoid=False):
+                 audit_git=True, max_sync_tokens=4, principal="/user/", strict=True, paranoid=False, gitconf=""):
         # strict: --no-strict deployments tolerate sloppy requests; paranoid: index answers are
         # double-checked against the naive evaluation.  Every property holds in all of them.
+        # gitconf: git settings of the account / repositories the server runs with (text appended to
+        # every collection's git config as soon as it exists), e.g. core.autocrlf
+        self.gitconf = gitconf
         self.cfg = {"frontend": frontend, "prefix": prefix, "backend": backend, "principal": principal,
-                    "strict": bool(strict), "paranoid": bool(paranoid)}
+                    "strict": bool(strict), "paranoid": bool(paranoid), "gitconf": bool(gitconf)}
         self.slots, self.homes = slots_for(principal)
         self.world = World(frontend=frontend, prefix=prefix, index_threshold=index_threshold, principal=principal,
                            strict=strict, paranoid=paranoid)
@@ -93,6 +96,8 @@ class DavSession:
         self.foreign_i = 0
         if backend in ("bare", "barecfg", "treecfg"):
             self._precreate()
+            for c in SLOTS:
+                self._apply_gitconf(c)
         self.init_audit = self.audit()
 
     # -- setup for backends the server cannot create itself ----------------
@@ -242,6 +247,18 @@ class DavSession:
         self._fault_fired = False
         return self.world.request(method, path, hdrs, body)
 
+    def _apply_gitconf(self, c):
+        if not self.gitconf:
+            return
+        d = self.world.fspath(self.slots[c])
+        for cf in (os.path.join(d, ".git", "config"), os.path.join(d, "config")):
+            if os.path.isfile(cf):
+                txt = open(cf).read()
+                if self.gitconf not in txt:
+                    with open(cf, "a") as f:
+                        f.write("\n" + self.gitconf + "\n")
+                return
+
     def _holders_gone(self, c, n, b):
         """Every member the last audit shows with the UID of body b (other than n) is one whose
         deletion the server has acknowledged: the UID is free by the server's own word."""
@@ -357,6 +374,7 @@ class DavSession:
                     mprops.append({"p": NEUTRAL.get(p, p), "v": self.V(v), "pst": st.get(gamma.PROP_TAGS[p]) or 0})
             except ET.ParseError:
                 pass
+        self._apply_gitconf(c)
         ev = {"op": "Mk", "c": c, "kind": kind, "how": how, "mprops": mprops}
         return self._record(ev, resp, {"m": how, "path": path, "props": list(props)})
 
